@@ -22,6 +22,28 @@ FLOOR = 1125
 T1, T2 = "_p._sub._a._tcp.local.", "_s._sub._a._tcp.local."  # two subtypes whose pointers lead to the same instances
 
 
+def scheduler_armed(w: Any, br: Any) -> Optional[bool]:
+    """Is a wake-up of the browser's query scheduler pending?  Read from the scheduler's own handle when it has the known
+    private field, otherwise from the loop's timer heap (a timer whose callback belongs to the scheduler or the browser);
+    None when neither tells (then nothing is claimed)."""
+    qs = getattr(br, "query_scheduler", None)
+    h = getattr(qs, "_next_run", None) if qs is not None else None
+    if h is not None and hasattr(h, "when"):
+        return not (h.cancelled() or h.when() * 1000 < w.now_ms - 1)
+    owners = [o for o in (qs, br) if o is not None]
+    found = False
+    for t in w.loop._scheduled:
+        cb = getattr(t, "_callback", None)
+        owner = getattr(cb, "__self__", None)
+        if any(owner is o for o in owners):
+            found = True
+            if not t.cancelled() and t.when() * 1000 >= w.now_ms - 1:
+                return True
+    if qs is not None and hasattr(qs, "_next_run"):
+        return False  # known layout, handle is None
+    return False if found else None
+
+
 def actions(tier: str) -> List[tuple]:
     ttls = [1, 1200, 4500] if tier == "quick" else [1, 1125, 1200, 4500, 9000]
     acts: List[tuple] = [("ptr", X, t) for t in ttls] + [("ptr", Y, t) for t in ttls]
@@ -295,8 +317,8 @@ def run_point(p: Dict[str, Any], verbose: bool = False) -> Tuple[Optional[Dict[s
                                 f"schedule (old schedule of a refreshed or withdrawn record?)")
                 break
         # (e) the scheduler is still armed
-        qs = br.query_scheduler
-        if qs._next_run is None or qs._next_run.cancelled() or qs._next_run.when() * 1000 < w.now_ms - 1:
+        armed = scheduler_armed(w, br)
+        if armed is False:
             problems.append("armed: the scheduler has no timer armed although the browser is active")
         # removed-by-expiry consistency with the intervals
         excs = w.exceptions()
